@@ -17,6 +17,7 @@ package afero
 
 import (
 	"bytes"
+	"errors"
 	"io"
 	"os"
 	"path/filepath"
@@ -146,6 +147,10 @@ var (
 	randmu  sync.Mutex
 )
 
+// errPatternHasSeparator is returned for a pattern that would place the new entry outside dir
+// (the standard library rejects such patterns in os.CreateTemp / os.MkdirTemp as well).
+var errPatternHasSeparator = errors.New("pattern contains path separator")
+
 func reseed() uint32 {
 	return uint32(time.Now().UnixNano() + int64(os.Getpid()))
 }
@@ -180,6 +185,10 @@ func (a Afero) TempFile(dir, pattern string) (f File, err error) {
 func TempFile(fs Fs, dir, pattern string) (f File, err error) {
 	if dir == "" {
 		dir = os.TempDir()
+	}
+
+	if strings.ContainsRune(pattern, os.PathSeparator) {
+		return nil, &os.PathError{Op: "tempfile", Path: pattern, Err: errPatternHasSeparator}
 	}
 
 	var prefix, suffix string
@@ -220,6 +229,9 @@ func (a Afero) TempDir(dir, prefix string) (name string, err error) {
 func TempDir(fs Fs, dir, prefix string) (name string, err error) {
 	if dir == "" {
 		dir = os.TempDir()
+	}
+	if strings.ContainsRune(prefix, os.PathSeparator) {
+		return "", &os.PathError{Op: "tempdir", Path: prefix, Err: errPatternHasSeparator}
 	}
 
 	nconflict := 0
